@@ -14,7 +14,7 @@ REGISTRY = {}          # (module, qualname) -> Contract instance
 
 def register(c):
     inst = c() if isinstance(c, type) else c
-    REGISTRY[(inst.module, inst.qualname)] = inst
+    REGISTRY[(inst.module, inst.key_name)] = inst
     return c
 
 
@@ -26,6 +26,11 @@ class Contract(object):
     invariants = {}           # (qualname, loop ordinal) -> ForInv / WhileInv
     hooks = {}
     max_paths = 400
+    variant = ''              # several contracts on one function (different aspects) get a variant tag
+
+    @property
+    def key_name(self):
+        return self.qualname + ('#' + self.variant if self.variant else '')
 
     # ---- symbolic side -------------------------------------------------------------
     def cases(self):
@@ -140,6 +145,8 @@ class ForInv(object):
                 m.arr = z3.Const('heap!%d' % next(I.st.n), m.arr.sort())
                 if m.dom is not None:
                     m.dom = z3.Const('heapdom!%d' % next(I.st.n), m.dom.sort())
+                if getattr(m, 'dom2', None) is not None:
+                    m.dom2 = z3.Const('heapdom2!%d' % next(I.st.n), m.dom2.sort())
 
     def run_for(self, I, s, fr, seq, key):
         import z3
